@@ -354,6 +354,19 @@ Section Spec.
 End Spec.
 
 (* ------------------------------------------------------------------------------------------ *)
+(* Time-outs at the level of FSM states (the TS2 phases are not distinguishable from outside) *)
+Definition st_timeout (c : lt_cfg) (f : lt_fsm) : option N :=
+  match f with
+  | RxDetQuiet | PollActive | PollConfig | HotResetActive | RecActive | RecConfig | InactQuiet => Some (T12 c)
+  | PollIdle | HotResetExit | RecIdle => Some (T2 c)
+  | PollLFPS => Some (T360 c)
+  | _ => None
+  end.
+(* state after a typed input history *)
+Fixpoint lt_run (c : lt_cfg) (s : lt_state) (ins : list lt_in) : lt_state :=
+  match ins with [] => s | i :: t => lt_run c (lt_next c s i) t end.
+
+(* ------------------------------------------------------------------------------------------ *)
 (* packing of the model state for the lock-step tie *)
 Definition lt_enc (s : lt_state) : N :=
   pk 2 (b2n (polling_seen s)) (pk 2 (b2n (ts2_seen s)) (pk 2 (b2n (hot_seen s)) (pk 2 (b2n (loop_seen s))
